@@ -13,15 +13,16 @@ ShapesC42 == {Sh("e", 0, {}), Sh("b", 2, {})}
 \* C43: 0..3 logs from 3 addresses x 3 topics (one EVM call per log)
 ShapesC43 == {Sh("l0", 0, {}), Sh("l1", 1, {<<"a1", "t1">>}), Sh("l2", 2, {<<"a2", "t2">>, <<"a1", "t3">>}),
               Sh("l3", 3, {<<"a3", "t1">>, <<"a3", "t3">>, <<"a2", "t1">>})}
-ShapesC43t3 == {Sh("l0", 0, {}), Sh("l2", 2, {<<"a2", "t2">>, <<"a1", "t3">>}), Sh("l3", 3, {<<"a3", "t1">>, <<"a3", "t3">>, <<"a2", "t1">>})}
-ShapesC43q == {Sh("l0", 0, {}), Sh("l1", 1, {<<"a1", "t1">>}), Sh("l2", 2, {<<"a2", "t2">>, <<"a1", "t3">>})}
+ShapesC43t3 == {Sh("l0", 0, {}), Sh("l1f", 2, {<<"a1", "t1">>}), Sh("l2", 2, {<<"a2", "t2">>, <<"a1", "t3">>}), Sh("l3", 3, {<<"a3", "t1">>, <<"a3", "t3">>, <<"a2", "t1">>})}
+\* a shape name ending in "f": the block additionally carries a FAILING EVM transaction (its fee log is still an event)
+ShapesC43q == {Sh("l0", 0, {}), Sh("l1f", 2, {<<"a1", "t1">>}), Sh("l2", 2, {<<"a2", "t2">>, <<"a1", "t3">>})}
 
 Fields == {"height", "prev", "ts", "broot", "troot", "body", "sigs", "keepers", "sroot"}
 Alt(f) == CASE f = "height" -> {"stale", "skip"}
             [] f = "prev" -> {"old", "unknown"}
             [] f = "ts" -> {"eq", "lt"}
             [] f = "broot" -> {"bad"}
-            [] f = "troot" -> {"bad", "badc"}
+            [] f = "troot" -> {"bad", "badc", "zero", "zeroc"}
             [] f = "body" -> {"drop", "alter", "dup", "evmnonce"}
             [] f = "sigs" -> {"none", "few", "foreign", "dupsig", "stale"}
             [] f = "keepers" -> {"foreign", "subset"}
@@ -35,7 +36,7 @@ AllPaths == {"wire", "mem", "exec"}
 WireOnly == {"wire"}
 NoKinds == {}
 KindsC42 == {"native-transfer", "native-transfer-fail", "neovm-deploy", "neovm-storage-put", "neovm-badscript", "evm-transfer", "evm-create",
-             "evm-call-log", "evm-msg-call", "evm-msg-create", "batch-atomic", "batch-plain"}
+             "evm-call-log", "evm-transfer-free", "evm-msg-call", "evm-msg-create", "batch-atomic", "batch-plain"}
 DuringQuick == {"native-transfer", "evm-call-log", "evm-msg-call"}
 DuringAll == KindsC42 \ {"batch-atomic"}    \* the atomic batch takes the block-saving lock and cannot run inside a commit
 PointsQuick == {"staged", "evt"}
